@@ -165,6 +165,24 @@ void runC17(Ctx &c)
             hh = hashDoubles(&T, 1, hh);
             c.event("duration_points");
         }
+        // arguments of other arithmetic types (whole numbers written as int / long / unsigned, float variables): the
+        // interface is double -> double, so the result is the one for the converted value
+        for (int q = 0; q < 40; ++q)
+        {
+            const int iv = r.range(-9, 9);
+            const long lv = r.range(-2000, 2000);
+            const unsigned uv = (unsigned)r.range(1, 50);
+            const float fv = (float)(r.normal() * 3.0);
+            const float fT = (float)r.logUni(1e-3, 1e3);
+            bool ok = bitEqual((double)m.toTime(iv), m.toTime((double)iv)) && bitEqual((double)m.toTime(lv), m.toTime((double)lv)) &&
+                      bitEqual((double)m.toTime(uv), m.toTime((double)uv)) && bitEqual((double)m.toTime(fv), m.toTime((double)fv)) &&
+                      bitEqual((double)m.toTau(uv), m.toTau((double)uv)) && bitEqual((double)m.toTau(fT), m.toTau((double)fT)) &&
+                      bitEqual((double)m.toTau(iv < 1 ? 1 - iv : iv), m.toTau((double)(iv < 1 ? 1 - iv : iv))) &&
+                      bitEqual((double)m.backward(iv, m.toTime((double)iv), 1), m.backward((double)iv, m.toTime((double)iv), 1.0)) &&
+                      bitEqual((double)id.toTime(fv), (double)fv) && bitEqual((double)id.toTau(uv), (double)uv);
+            c.require("C17.non_double_arguments_are_converted", ok, tkey("argument_types"), "int=" + std::to_string(iv) + " float=" + jhex((double)fv));
+            c.event("argument_type_probes");
+        }
         // identity map: exact pass-through
         for (int q = 0; q < 50; ++q)
         {
